@@ -966,7 +966,7 @@ func c15Scenarios(tier string) []Scenario {
 func init() {
 	register(&Property{ID: "C15", Level: "exploration",
 		Technique: "bounded-exhaustive enumeration of directory shapes and read counts against the real Ufs, replies decoded record by record with the independent codec and compared with os.ReadDir",
-		Rule:      "directories with 0..3 (thorough 0..5 all, 6 every third) entries whose name lengths are every multiset over {1,2,17,255}, plus 50-, 400- (thorough 3000-) entry directories; msize {512,4120} (thorough + 360, 1024, 65560), both dialects; for each: every count from the largest entry size to the listing size + 1 read by the offset rule to the zero-length reply, short counts at every record boundary, restart at offset 0 after every prefix, and after an entry was created / removed with the directory's mtime put back (coarse timestamps), File.Readdir(0); symbolic links with targets of every length 0..1199 (thorough ..3999) bytes, i.e. stat records of every size up to beyond 1024 (thorough 4096) bytes; one entry removed by the host while the server lists the directory (between the names being read and the entry being examined, at every position for small directories and around multiples of 1024 for directories of 1030..4100 entries): all the others listed exactly once. non-trivial = complete listings / reads compared ; a directory listed, changed through the protocol (renamed or chmod-ed through the open fid, entries created / removed / renamed) and listed again from offset 0; client Readdir at message sizes that are not block-aligned",
+		Rule:      "directories with 0..3 (thorough 0..5 all, 6 every third) entries whose name lengths are every multiset over {1,2,17,255}, plus 50-, 400- (thorough 3000-) entry directories; msize {512,4120} (thorough + 360, 1024, 65560), both dialects; for each: every count from the largest entry size to the listing size + 1 read by the offset rule to the zero-length reply, short counts at every record boundary, restart at offset 0 after every prefix, and after an entry was created / removed with the directory's mtime put back (coarse timestamps), File.Readdir(0); symbolic links with targets of every length 0..1199 (thorough ..3999) bytes, i.e. stat records of every size up to beyond 1024 (thorough 4096) bytes; one entry removed by the host while the server lists the directory (between the names being read and the entry being examined, at every position for small directories and around multiples of 1024 for directories of 1030..4100 entries): all the others listed exactly once. non-trivial = complete listings / reads compared ; a directory listed, changed through the protocol (renamed or chmod-ed through the open fid, entries created / removed / renamed) and listed again from offset 0; client Readdir at message sizes that are not block-aligned ; re-reading an open directory with no spare descriptor (RLIMIT_NOFILE lowered inside the worker process)",
 		Assumptions: []string{"the host file system and package os are the reference; a directory is skipped at an msize that cannot carry its largest entry"},
 		Scenarios:   c15Scenarios, QuickS: 100, ThoroughS: 900})
 }
